@@ -476,6 +476,32 @@ func (r *Runner) GenBatch() Batch {
 				b = append(b, r.gen(id, true, 1.0))
 			}
 		}
+		if r.Cfg.RepeatUpd && r.Cfg.hasGraphOnly() && len(b) > 0 && r.R.Intn(3) == 0 {
+			// with a graph index only the order "remove every indexed field, then set them again" is
+			// defined by the code (removals and re-insertions are collected and applied in that order)
+			// (a point the batch does not name otherwise: a vector rewritten twice in one request is
+			// re-inserted twice and its neighbours keep the first vector in memory, same family as C05-repeat)
+			inB := map[int]bool{}
+			for _, p := range b {
+				inB[p.ID] = true
+			}
+			for _, id := range r.pickIDs(4, 1) {
+				if !inB[id] {
+					r.G.ForceDelete = true
+					b = append(b, r.gen(id, true, 0.5))
+					r.G.ForceDelete = false
+					// (pInc 1 and no narrow form: the second entry sets every indexed field)
+					for {
+						p2 := r.gen(id, true, 1.0)
+						if len(p2.Vals) > 0 {
+							b = append(b, p2)
+							break
+						}
+					}
+					break
+				}
+			}
+		}
 		return Batch{Kind: "update", Pts: b}
 	default:
 		return Batch{Kind: "delete", IDs: r.pickIDs(n, 0.7)}
@@ -508,4 +534,17 @@ func (c Config) hasUnorderedIndex() bool {
 		}
 	}
 	return false
+}
+
+func (c Config) hasGraphOnly() bool {
+	g := false
+	for _, p := range c.Props {
+		if p.Type == models.IndexTypeText {
+			return false
+		}
+		if p.Type == models.IndexTypeVectorVamana {
+			g = true
+		}
+	}
+	return g
 }
